@@ -28,7 +28,7 @@ def _ops(v, js=(1, 2), extra_targets=()):
 
 def templates(tier="quick"):
     T = []
-    d = 3 if tier == "quick" else 4
+    d = 3 if tier == "quick" else 5
     shapes = []
     shapes.append(("chain_plain", Variant("v0", [Stmt("a", ex=["s"]), Stmt("b", ex=["a"])])))
     shapes.append(("deps_gcc", Variant("v0", [Stmt("obj", ex=["src"], hidden=["hdr"], deps="gcc"), Stmt("exe", ex=["obj"])])))
@@ -61,7 +61,9 @@ def templates(tier="quick"):
         bd = "bd" if name.startswith("builddir") else ""
         # from a fresh tree: kill the very first build; from a built tree: kill an incremental build
         T.append(scenario("c07/" + name + "/fresh", "c07", [v], ops=ops, init=[], depth=2, tags=["crash", "fresh"], builddir=bd))
-        T.append(scenario("c07/" + name + "/built", "c07", [v], ops=ops, init=[plain], depth=d, tags=["crash", "built"], builddir=bd))
+        # (the thorough depth of 5 is kept for projects of two statements: the larger ones exceed the memory budget there)
+        T.append(scenario("c07/" + name + "/built", "c07", [v], ops=ops, init=[plain], depth=d if len(v.stmts) <= 2 else min(d, 4),
+                          tags=["crash", "built"], builddir=bd))
     # a restat statement with recorded dependencies whose command, after a manifest change, reports one dependency more
     # while leaving its output untouched (copy tool): the build-log record and the deps-log record are two appends
     for kind in ("gcc", "msvc"):
@@ -73,6 +75,17 @@ def templates(tier="quick"):
                {"op": "edit", "path": "h2", "label": "edit h2"}] + ops
         T.append(scenario("c07/restat_deps_%s_list_changes/built" % kind, "c07", [v0, v1], files={"h2": "h2-v0\n"}, ops=ops,
                           init=[plain + 2], depth=d, tags=["crash", "built", "restat", "deps"]))
+
+    # a command line that changes and changes back around a build that dies (hand-edited manifest, a branch switched twice)
+    for nm, mk in (("chain_plain", lambda ver: [Stmt("a", ex=["s"], ver=ver), Stmt("b", ex=["a"])]),
+                   ("deps_gcc", lambda ver: [Stmt("obj", ex=["src"], hidden=["hdr"], deps="gcc", ver=ver), Stmt("exe", ex=["obj"])]),
+                   ("restat", lambda ver: [Stmt("gen", ex=["tmpl"], restat=True, ver=ver), Stmt("use", ex=["gen"])])):
+        v0, v1 = Variant("v0", mk(0)), Variant("v1", mk(1))
+        ops, plain, crash = _ops(v0)
+        ops = [{"op": "variant", "to": 1, "label": "manifest:=v1 (first command line changed)"},
+               {"op": "variant", "to": 0, "label": "manifest:=v0"}] + ops
+        T.append(scenario("c07/%s_command_changes_and_back/built" % nm, "c07", [v0, v1], ops=ops, init=[plain + 2], depth=d,
+                          tags=["crash", "built", "command-change"]))
 
     # the manifest itself is an output (generator statement): interrupts and deaths while it is being regenerated
     def regen(name, ver):
